@@ -64,7 +64,7 @@ def gen_appendix(ev):
 def seeds(tag):
     rows = []
     for d in sorted((V / "seeded").iterdir()):
-        m = re.fullmatch(r"(C\d\d)-(b|c|d|e|f)?(\d+)", d.name)
+        m = re.fullmatch(r"(C\d\d)-(b|c|d|e|f|g)?(\d+)", d.name)
         if not m or (m.group(2) or "") != tag:
             continue
         meta = json.loads((d / "meta.json").read_text())
